@@ -40,6 +40,7 @@ type Elem struct {
 	B      int `json:"bee,omitempty"`
 	hidden int
 	H      int    `json:"-"`
+	In     Inner  `json:"in"`
 	P      *Inner `json:"p"`
 }
 type NElem struct { // element with a nested (non-pointer) struct: findings only
@@ -106,8 +107,8 @@ type Op struct {
 	How   int    `json:"how,omitempty"`
 }
 type EV struct {
-	ID, A, B, H int64
-	P           int // -1 = nil, else cell index
+	ID, A, B, H, In int64
+	P               int // -1 = nil, else cell index
 }
 type GNode struct {
 	Arr    bool    `json:"arr"`
@@ -126,6 +127,11 @@ type Case struct {
 	Nodes  []GNode          `json:"nodes,omitempty"`
 	Root   int              `json:"root,omitempty"`
 	Name   string           `json:"name,omitempty"`
+	GK     int              `json:"gk,omitempty"`  // gs: 0 *[]interface{}, 1 *[]int, 2 *[N]int
+	GInit  []*int64         `json:"ginit,omitempty"`
+	NilMap bool             `json:"nilmap,omitempty"`
+	Shape  []int            `json:"shape,omitempty"` // xto: field kinds
+	Refs   []int            `json:"refs,omitempty"`  // xto: which script object each field refers to
 }
 
 const failTerm = "TFail"
@@ -352,7 +358,9 @@ func (g *tgen) val(t reflect.Type, depth int) reflect.Value {
 				continue
 			}
 			if t.Field(i).Anonymous && f.Kind() == reflect.Ptr {
-				// embedded pointers are kept non-nil here (nil: finding C13-F23, see probes)
+				if r.Chance(35) {
+					continue // nil embedded pointer: promoted fields read as absent (C13-F23 repaired)
+				}
 				p := reflect.New(f.Type().Elem())
 				p.Elem().Set(g.val(f.Type().Elem(), depth-1))
 				f.Set(p)
@@ -361,9 +369,7 @@ func (g *tgen) val(t reflect.Type, depth int) reflect.Value {
 			f.Set(g.val(f.Type(), depth-1))
 		}
 	case reflect.Func:
-		// never nil: calling the wrapper of a nil func panics the host (finding C13-F26, probe nil_func_call); a nil
-		// func nested in a map is even reached by JSON.stringify/String through the toJSON/toString lookup
-		{
+		if !r.Chance(15) { // nil funcs: calling one is a TypeError (C13-F26 repaired)
 			ft := t
 			v.Set(reflect.MakeFunc(t, func(args []reflect.Value) []reflect.Value {
 				out := make([]reflect.Value, ft.NumOut())
@@ -603,9 +609,6 @@ func runRT(c Case) vh.Record {
 		`typeof w === 'function' ? w() : 0`, `typeof w === 'function' ? w(1, 2, 3, 4) : 0`, `({...Object(w)}), 1`,
 	} {
 		s := src
-		if gv.IsValid() && gv.Kind() == reflect.Func && gv.IsNil() && strings.Contains(s, "'function'") {
-			continue // calling the wrapper of a nil func panics the host: finding C13-F26 (probe nil_func_call)
-		}
 		add("script "+s, func() bool { _, _ = vm.RunString(s); return true })
 	}
 	return vh.Record{Case: vh.MustJSON(c), Coq: coqBits(bits), Obs: fmt.Sprintf("type=%v bits=%v %s", t, bits, strings.Join(notes, "; ")),
@@ -757,21 +760,24 @@ func runGraph(c Case) vh.Record {
 
 // property-name codes of the model: 0 ID, 1 id, 2 A, 3 a, 4 B, 5 bee, 6 b, 7 H, 8 h, 9 P, 10 p,
 // 11 Base, 12 base, 13 hidden, 14 zzz, 15 iD
-var nameTab = []string{"ID", "id", "A", "a", "B", "bee", "b", "H", "h", "P", "p", "Base", "base", "hidden", "zzz", "iD"}
+var nameTab = []string{"ID", "id", "A", "a", "B", "bee", "b", "H", "h", "P", "p", "Base", "base", "hidden", "zzz", "iD", "In", "in"}
 
 // names that may be used for value get/set in generated histories (not P/Base: pointer/container)
 var scalarNames = []int{0, 1, 2, 3, 4, 5, 6, 7, 8, 13, 14, 15}
 
-type names struct{ ID, A, B, H, P, X string }
+// for strict assignment of a number also the names of the struct-typed field: that assignment FAILS
+var setNames = []int{0, 1, 2, 3, 4, 5, 6, 7, 8, 13, 14, 15, 16, 17}
+
+type names struct{ ID, A, B, H, P, X, In string }
 
 func namesOf(m int) names {
 	switch m {
 	case 1:
-		return names{"id", "a", "bee", "", "p", "x"}
+		return names{"id", "a", "bee", "", "p", "x", "in"}
 	case 2:
-		return names{"iD", "a", "b", "h", "p", "x"}
+		return names{"iD", "a", "b", "h", "p", "x", "in"}
 	}
-	return names{"ID", "A", "B", "H", "P", "X"}
+	return names{"ID", "A", "B", "H", "P", "X", "In"}
 }
 
 func coqElem(e EV) string {
@@ -779,11 +785,11 @@ func coqElem(e EV) string {
 	if e.P >= 0 {
 		p = fmt.Sprintf("(Some %d)", e.P)
 	}
-	return fmt.Sprintf("(mkE %s %s %s %s %s)", vh.CoqZ(e.ID), vh.CoqZ(e.A), vh.CoqZ(e.B), vh.CoqZ(e.H), p)
+	return fmt.Sprintf("(mkE %s %s %s %s %s %s)", vh.CoqZ(e.ID), vh.CoqZ(e.A), vh.CoqZ(e.B), vh.CoqZ(e.H), vh.CoqZ(e.In), p)
 }
 
 func genEV(r *vh.Rng, ncell int) EV {
-	e := EV{ID: int64(r.Intn(9)), A: int64(r.Intn(7) - 2), B: int64(r.Intn(100)), H: int64(r.Intn(50)), P: -1}
+	e := EV{ID: int64(r.Intn(9)), A: int64(r.Intn(7) - 2), B: int64(r.Intn(100)), H: int64(r.Intn(50)), In: int64(500 + r.Intn(100)), P: -1}
 	if r.Chance(50) {
 		e.P = r.Intn(ncell)
 	}
@@ -802,7 +808,8 @@ func genHist(r *vh.Rng) Case {
 	}
 	c.Cap = n + r.Intn(4)
 	nops := 1 + r.Intn(20)
-	nh := 0
+	nh, nfh := 0, 0
+	var fowner []int // field handle -> the element handle it was taken from
 	length := n // approximate current length, only steers the generator
 	for i := 0; i < nops; i++ {
 		idx := func() int {
@@ -818,7 +825,21 @@ func genHist(r *vh.Rng) Case {
 			return r.Intn(nh)
 		}
 		var op Op
-		switch r.Pick(14, 8, 5, 5, 6, 4, 4, 4, 4, 3, 6, 4, 12, 6, 8, 4, 2, 3) {
+		fk := func() int {
+			if nfh == 0 {
+				return 0
+			}
+			return r.Intn(nfh)
+		}
+		// correlated picks: mostly go back to an element handle whose FIELD wrapper was handed out earlier
+		pair := func() (int, int) {
+			if len(fowner) > 0 && r.Chance(75) {
+				c := r.Intn(len(fowner))
+				return fowner[c], c
+			}
+			return hk(), fk()
+		}
+		switch r.Pick(14, 8, 5, 5, 6, 4, 4, 4, 4, 3, 6, 4, 12, 6, 8, 4, 2, 3, 10, 7, 6, 4, 8, 5, 4, 2, 2) {
 		case 0:
 			op = Op{O: "get", I: idx()}
 			nh++
@@ -873,15 +894,52 @@ func genHist(r *vh.Rng) Case {
 		case 13:
 			op = Op{O: "getf", K: hk(), N: scalarNames[r.Intn(len(scalarNames))]}
 		case 14:
-			op = Op{O: "setf", K: hk(), N: scalarNames[r.Intn(len(scalarNames))], Z: int64(300 + r.Intn(100))}
+			op = Op{O: "setf", K: hk(), N: setNames[r.Intn(len(setNames))], Z: int64(300 + r.Intn(100))}
 		case 15:
 			op = Op{O: "setpx", K: hk(), Z: int64(400 + r.Intn(100))}
 		case 16:
 			op = Op{O: "keys", K: hk()}
 		case 17:
 			op = Op{O: "delf", K: hk(), N: r.Intn(len(nameTab))}
+		case 18:
+			op = Op{O: "getin", K: hk()}
+			nfh++
+			fowner = append(fowner, op.K)
+		case 19:
+			op = Op{O: "readin", K: fk()}
+		case 20:
+			op = Op{O: "setinx", K: fk(), Z: int64(600 + r.Intn(100))}
+		case 21:
+			k, _ := pair()
+			op = Op{O: "putin", K: k, Z: int64(700 + r.Intn(100))}
+		case 22:
+			k, _ := pair()
+			op = Op{O: "putinbad", K: k, How: r.Intn(2)}
+		case 23:
+			k, c := pair()
+			op = Op{O: "samein", K: k, I: c}
+		case 24:
+			op = Op{O: "putbad", I: idx(), How: r.Intn(2)}
+			if op.I >= length {
+				length = op.I + 1
+			}
+		case 25:
+			op = Op{O: "defnoval", I: idx()}
+			if op.I >= length {
+				length = op.I + 1
+			}
+		case 26:
+			op = Op{O: "deffnoval", K: hk(), N: r.Intn(len(nameTab))}
 		}
 		c.Ops = append(c.Ops, op)
+	}
+	// epilogue: every wrapper handed out earlier (up to 3 field wrappers, 3 element wrappers) is re-checked for
+	// identity and liveness: same object as a fresh access, a write through it reaches Go, a read sees Go
+	for c0 := 0; c0 < len(fowner) && c0 < 3; c0++ {
+		c.Ops = append(c.Ops, Op{O: "samein", K: fowner[c0], I: c0}, Op{O: "setinx", K: c0, Z: int64(800 + c0)}, Op{O: "readin", K: c0})
+	}
+	for k := 0; k < nh && k < 3; k++ {
+		c.Ops = append(c.Ops, Op{O: "setf", K: k, N: 2 + r.Intn(2), Z: int64(900 + k)}, Op{O: "read", K: k})
 	}
 	return c
 }
@@ -897,7 +955,7 @@ func runHist(c Case) vh.Record {
 		cells[i] = &Inner{X: int(x)}
 	}
 	mk := func(e EV) Elem {
-		el := Elem{Base: Base{ID: int(e.ID)}, A: int(e.A), B: int(e.B), H: int(e.H)}
+		el := Elem{Base: Base{ID: int(e.ID)}, A: int(e.A), B: int(e.B), H: int(e.H), In: Inner{X: int(e.In)}}
 		if e.P >= 0 && e.P < len(cells) {
 			el.P = cells[e.P]
 		}
@@ -920,15 +978,15 @@ func runHist(c Case) vh.Record {
 		}
 		return v
 	}
-	run(fmt.Sprintf(`var H = [];
-function rd(h) { if (h === undefined || h === null) return null; var p = h[%q]; return [h[%q], h[%q], h[%q], (p === null || p === undefined) ? null : p[%q]]; }
-function dump() { var r = []; for (var i = 0; i < arr.length; i++) r.push(rd(arr[i])); return r; }`, nm.P, nm.ID, nm.A, nm.B, nm.X))
+	run(fmt.Sprintf(`var H = [], FH = [];
+function rd(h) { if (h === undefined || h === null) return null; var p = h[%q]; return [h[%q], h[%q], h[%q], h[%q][%q], (p === null || p === undefined) ? null : p[%q]]; }
+function dump() { var r = []; for (var i = 0; i < arr.length; i++) r.push(rd(arr[i])); return r; }`, nm.P, nm.ID, nm.A, nm.B, nm.In, nm.X, nm.X))
 	lit := func(e EV) string {
 		p := "null"
 		if e.P >= 0 {
 			p = fmt.Sprintf("CELLS[%d]", e.P)
 		}
-		s := fmt.Sprintf("{%q: %d, %q: %d, %q: %d, %q: %s", nm.ID, e.ID, nm.A, e.A, nm.B, e.B, nm.P, p)
+		s := fmt.Sprintf("{%q: %d, %q: %d, %q: %d, %q: {%q: %d}, %q: %s", nm.ID, e.ID, nm.A, e.A, nm.B, e.B, nm.In, nm.X, e.In, nm.P, p)
 		if nm.H != "" {
 			s += fmt.Sprintf(", %q: %d", nm.H, e.H)
 		}
@@ -936,8 +994,8 @@ function dump() { var r = []; for (var i = 0; i < arr.length; i++) r.push(rd(arr
 	}
 	jelem := func(x interface{}) string {
 		a, ok := x.([]interface{})
-		if !ok || len(a) != 4 {
-			return "(99%Z, 99%Z, 99%Z, None)"
+		if !ok || len(a) != 5 {
+			return "(99%Z, 99%Z, 99%Z, 99%Z, None)"
 		}
 		z := func(y interface{}) string {
 			if n, ok := y.(int64); ok {
@@ -946,10 +1004,10 @@ function dump() { var r = []; for (var i = 0; i < arr.length; i++) r.push(rd(arr
 			return "(-77777)%Z"
 		}
 		p := "None"
-		if a[3] != nil {
-			p = "(Some " + z(a[3]) + ")"
+		if a[4] != nil {
+			p = "(Some " + z(a[4]) + ")"
 		}
-		return fmt.Sprintf("(%s, %s, %s, %s)", z(a[0]), z(a[1]), z(a[2]), p)
+		return fmt.Sprintf("(%s, %s, %s, %s, %s)", z(a[0]), z(a[1]), z(a[2]), z(a[3]), p)
 	}
 	var ops, obs, human []string
 	tags := map[string]bool{"hist": true, fmt.Sprintf("mapper:%d", c.Mapper): true}
@@ -1085,6 +1143,69 @@ function dump() { var r = []; for (var i = 0; i < arr.length; i++) r.push(rd(arr
 				out = "XErr"
 			}
 			term = fmt.Sprintf("HDelF %d %d%%N", op.K, op.N)
+		case "getin":
+			run(fmt.Sprintf(`FH.push(H[%d] === undefined ? undefined : H[%d][%q])`, op.K, op.K, nm.In))
+			term = fmt.Sprintf("HGetIn %d", op.K)
+			tags["op:field-wrapper"] = true
+		case "readin":
+			x := run(fmt.Sprintf(`(function(){ var w = FH[%d]; return w === undefined ? "U" : w[%q]; })()`, op.K, nm.X)).Export()
+			if n, ok := x.(int64); ok {
+				out = fmt.Sprintf("(XVal (Some %s))", vh.CoqZ(n))
+			} else {
+				out = "(XVal None)"
+			}
+			term = fmt.Sprintf("HReadIn %d", op.K)
+		case "setinx":
+			x := run(fmt.Sprintf(`(function(){ "use strict"; try { FH[%d][%q] = %d; return "ok"; } catch (e) { return "E"; } })()`, op.K, nm.X, op.Z)).String()
+			if x != "ok" {
+				out = "XErr"
+			}
+			term = fmt.Sprintf("HSetInX %d %s", op.K, vh.CoqZ(op.Z))
+		case "putin":
+			x := run(fmt.Sprintf(`(function(){ "use strict"; try { H[%d][%q] = {%q: %d}; return "ok"; } catch (e) { return "E"; } })()`, op.K, nm.In, nm.X, op.Z)).String()
+			if x != "ok" {
+				out = "XErr"
+			}
+			term = fmt.Sprintf("HPutIn %d %s", op.K, vh.CoqZ(op.Z))
+		case "putinbad":
+			strict := ""
+			if op.How == 1 {
+				strict = `"use strict"; `
+			}
+			x := run(fmt.Sprintf(`(function(){ %stry { H[%d][%q] = 5; return "ok"; } catch (e) { return "E"; } })()`, strict, op.K, nm.In)).String()
+			if x != "ok" {
+				out = "XErr"
+			}
+			term = fmt.Sprintf("HPutInBad %d %s", op.K, vh.CoqBool(op.How == 1))
+			tags["op:failing-assignment"] = true
+		case "samein":
+			x := run(fmt.Sprintf(`(function(){ try { return H[%d][%q] === FH[%d]; } catch (e) { return "E"; } })()`, op.K, nm.In, op.I)).Export()
+			if b, ok := x.(bool); ok {
+				out = fmt.Sprintf("(XBool %s)", vh.CoqBool(b))
+			} else {
+				out = "XErr"
+			}
+			term = fmt.Sprintf("HSameIn %d %d", op.K, op.I)
+		case "putbad":
+			strict := ""
+			if op.How == 1 {
+				strict = `"use strict"; `
+			}
+			x := run(fmt.Sprintf(`(function(){ %stry { arr[%d] = 5; return "ok"; } catch (e) { return "E"; } })()`, strict, op.I)).String()
+			if x != "ok" {
+				out = "XErr"
+			}
+			term = fmt.Sprintf("HPutBad %d %s", op.I, vh.CoqBool(op.How == 1))
+			tags["op:failing-assignment"] = true
+		case "defnoval":
+			run(fmt.Sprintf(`Object.defineProperty(arr, %d, {enumerable: true})`, op.I))
+			term = fmt.Sprintf("HDefNoVal %d", op.I)
+		case "deffnoval":
+			x := run(fmt.Sprintf(`(function(){ try { Object.defineProperty(H[%d], %q, {enumerable: true}); return "ok"; } catch (e) { return "E"; } })()`, op.K, nameTab[op.N])).String()
+			if x != "ok" {
+				out = "XErr"
+			}
+			term = fmt.Sprintf("HDefFNoVal %d %d%%N", op.K, op.N)
 		default:
 			continue
 		}
@@ -1101,7 +1222,7 @@ function dump() { var r = []; for (var i = 0; i < arr.length; i++) r.push(rd(arr
 					}
 				}
 			}
-			gos = append(gos, coqElem(EV{ID: int64(el.ID), A: int64(el.A), B: int64(el.B), H: int64(el.H), P: p}))
+			gos = append(gos, coqElem(EV{ID: int64(el.ID), A: int64(el.A), B: int64(el.B), H: int64(el.H), In: int64(el.In.X), P: p}))
 		}
 		for _, cp := range cells {
 			cs = append(cs, vh.CoqZ(int64(cp.X)))
@@ -1143,12 +1264,15 @@ function dump() { var r = []; for (var i = 0; i < arr.length; i++) r.push(rd(arr
 
 func genMap(r *vh.Rng) Case {
 	c := Case{Kind: "map", Simple: r.Bool(), MInit: map[string]int64{}}
-	for i := r.Intn(4); i > 0; i-- {
+	if !c.Simple && r.Chance(20) {
+		c.NilMap = true // var m map[string]int: reads work, writes are TypeErrors (C13-F21 repaired)
+	}
+	for i := r.Intn(4); i > 0 && !c.NilMap; i-- {
 		c.MInit[keyNames[r.Intn(len(keyNames))]] = int64(r.Intn(100))
 	}
 	for i := 1 + r.Intn(20); i > 0; i-- {
 		k := r.Intn(len(keyNames))
-		o := []string{"set", "del", "get", "has", "keys", "define", "goset", "godel"}[r.Pick(6, 4, 4, 3, 2, 2, 3, 2)]
+		o := []string{"set", "del", "get", "has", "keys", "define", "goset", "godel", "defnoval"}[r.Pick(6, 4, 4, 3, 2, 2, 3, 2, 3)]
 		c.Ops = append(c.Ops, Op{O: o, K: k, Z: int64(r.Intn(1000))})
 	}
 	return c
@@ -1165,7 +1289,9 @@ func runMap(c Case) vh.Record {
 		}
 		vm.Set("m", ms)
 	} else {
-		mr = map[string]int{}
+		if !c.NilMap {
+			mr = map[string]int{}
+		}
 		for k, v := range c.MInit {
 			mr[k] = int(v)
 		}
@@ -1199,18 +1325,25 @@ func runMap(c Case) vh.Record {
 			return t
 		case int:
 			return int64(t)
+		case nil:
+			return -1 // a nil / null value (only a key defined without a value in map[string]interface{})
 		}
 		return -77777
 	}
 	var ops, obs, human []string
-	tags := map[string]bool{"map": true, fmt.Sprintf("map:simple=%v", c.Simple): true}
+	tags := map[string]bool{"map": true, fmt.Sprintf("map:simple=%v", c.Simple): true, fmt.Sprintf("map:nil=%v", c.NilMap): true}
+	tryRun := func(src string) string {
+		return run(`(function(){ "use strict"; try { ` + src + `; return "ok"; } catch (e) { return "E"; } })()`).String()
+	}
 	for i, op := range c.Ops {
 		k := keyNames[op.K%len(keyNames)]
 		out := "MU"
 		var term string
 		switch op.O {
 		case "set":
-			run(fmt.Sprintf("m[%q] = %d", k, op.Z))
+			if tryRun(fmt.Sprintf("m[%q] = %d", k, op.Z)) != "ok" {
+				out = "ME"
+			}
 			term = fmt.Sprintf("MSet %d%%N %s", op.K, vh.CoqZ(op.Z))
 		case "del":
 			b := run(fmt.Sprintf("delete m[%q]", k)).ToBoolean()
@@ -1235,9 +1368,19 @@ func runMap(c Case) vh.Record {
 			run("Object.keys(m)")
 			term = "MKeys"
 		case "define":
-			run(fmt.Sprintf("Object.defineProperty(m, %q, {value: %d, writable: true, enumerable: true})", k, op.Z))
+			if tryRun(fmt.Sprintf("Object.defineProperty(m, %q, {value: %d, writable: true, enumerable: true})", k, op.Z)) != "ok" {
+				out = "ME"
+			}
 			term = fmt.Sprintf("MDefine %d%%N %s", op.K, vh.CoqZ(op.Z))
+		case "defnoval":
+			if tryRun(fmt.Sprintf("Object.defineProperty(m, %q, {enumerable: true})", k)) != "ok" {
+				out = "ME"
+			}
+			term = fmt.Sprintf("MDefNoVal %d%%N", op.K)
 		case "goset":
+			if c.NilMap {
+				continue
+			}
 			if c.Simple {
 				ms[k] = int(op.Z)
 			} else {
@@ -1245,6 +1388,9 @@ func runMap(c Case) vh.Record {
 			}
 			term = fmt.Sprintf("MGoSet %d%%N %s", op.K, vh.CoqZ(op.Z))
 		case "godel":
+			if c.NilMap {
+				continue
+			}
 			if c.Simple {
 				delete(ms, k)
 			} else {
@@ -1303,8 +1449,419 @@ func runMap(c Case) vh.Record {
 		tl = append(tl, t)
 	}
 	return vh.Record{Case: vh.MustJSON(c),
-		Coq:  fmt.Sprintf("TMap %s %s %s", vh.CoqList(is), vh.CoqList(ops), vh.CoqList(obs)),
+		Coq: fmt.Sprintf("TMap %s %s %s %s %s", vh.CoqBool(c.NilMap), map[bool]string{true: "(-1)%Z", false: "0%Z"}[c.Simple],
+			vh.CoqList(is), vh.CoqList(ops), vh.CoqList(obs)),
 		Obs:  strings.Join(human, " "), Tags: tl, Nontrivial: len(c.Ops) > 3}
+}
+
+// ---------------------------------------------------------------------------------------------
+// gs: plain slices/arrays with Go-side truncation/append interleaved with script-side growth
+
+func genGS(r *vh.Rng) Case {
+	c := Case{Kind: "gs", GK: r.Pick(5, 3, 2)}
+	n := r.Intn(6)
+	if c.GK == 2 {
+		n = 1 + r.Intn(4)
+	}
+	for i := 0; i < n; i++ {
+		if c.GK == 0 && r.Chance(15) {
+			c.GInit = append(c.GInit, nil)
+		} else {
+			z := int64(r.Intn(50))
+			c.GInit = append(c.GInit, &z)
+		}
+	}
+	c.Cap = n + r.Intn(5)
+	length := n
+	for i := 1 + r.Intn(20); i > 0; i-- {
+		var op Op
+		idx := func() int {
+			if length == 0 || r.Chance(25) {
+				return length + r.Intn(3)
+			}
+			return r.Intn(length)
+		}
+		switch r.Pick(10, 4, 8, 5, 4, 3, 10, 5, 4, 3, 5) {
+		case 0:
+			op = Op{O: "set", I: idx(), Z: int64(100 + r.Intn(100)), How: r.Intn(2)}
+			if c.GK != 2 && op.I >= length {
+				length = op.I + 1
+			}
+		case 1:
+			op = Op{O: "del", I: idx()}
+		case 2:
+			op = Op{O: "len", N: r.Intn(length + 4), How: r.Intn(2)}
+			if c.GK != 2 {
+				length = op.N
+			}
+		case 3:
+			op = Op{O: "push", Z: int64(200 + r.Intn(100))}
+			if c.GK != 2 {
+				length++
+			}
+		case 4:
+			op = Op{O: "pop"}
+			if c.GK != 2 && length > 0 {
+				length--
+			}
+		case 5:
+			op = Op{O: "sort"}
+		case 6:
+			op = Op{O: "gotrunc", N: r.Intn(length + 1)}
+			if c.GK != 2 {
+				length = op.N
+			}
+		case 7:
+			op = Op{O: "goappend", Z: int64(300 + r.Intn(100))}
+			if c.GK != 2 {
+				length++
+			}
+		case 8:
+			op = Op{O: "goset", I: idx(), Z: int64(400 + r.Intn(100))}
+		case 9:
+			op = Op{O: "defnoval", I: idx()}
+			if c.GK != 2 && op.I >= length {
+				length = op.I + 1
+			}
+		case 10:
+			op = Op{O: "get", I: idx()}
+		}
+		c.Ops = append(c.Ops, op)
+	}
+	return c
+}
+
+func coqOZ(p *int64) string {
+	if p == nil {
+		return "None"
+	}
+	return "(Some " + vh.CoqZ(*p) + ")"
+}
+
+func runGS(c Case) vh.Record {
+	vm := goja.New()
+	capn := c.Cap
+	if capn < len(c.GInit) {
+		capn = len(c.GInit)
+	}
+	var si []interface{}
+	var sn []int
+	var an reflect.Value // *[N]int
+	switch c.GK {
+	case 0:
+		si = make([]interface{}, len(c.GInit), capn)
+		for i, p := range c.GInit {
+			if p != nil {
+				si[i] = *p
+			}
+		}
+		vm.Set("a", &si)
+	case 1:
+		sn = make([]int, len(c.GInit), capn)
+		for i, p := range c.GInit {
+			sn[i] = int(*p)
+		}
+		vm.Set("a", &sn)
+	case 2:
+		an = reflect.New(reflect.ArrayOf(len(c.GInit), reflect.TypeOf(int(0))))
+		for i, p := range c.GInit {
+			an.Elem().Index(i).SetInt(*p)
+		}
+		vm.Set("a", an.Interface())
+	}
+	run := func(src string) goja.Value {
+		v, err := vm.RunString(src)
+		if err != nil {
+			panic(fmt.Sprintf("script %q: %v", src, err))
+		}
+		return v
+	}
+	goDump := func() []string {
+		var out []string
+		switch c.GK {
+		case 0:
+			for _, x := range si {
+				switch t := x.(type) {
+				case nil:
+					out = append(out, "None")
+				case int64:
+					out = append(out, "(Some "+vh.CoqZ(t)+")")
+				case int:
+					out = append(out, "(Some "+vh.CoqZ(int64(t))+")")
+				default:
+					out = append(out, "(Some (-77777)%Z)")
+				}
+			}
+		case 1:
+			for _, x := range sn {
+				out = append(out, "(Some "+vh.CoqZ(int64(x))+")")
+			}
+		case 2:
+			for i := 0; i < an.Elem().Len(); i++ {
+				out = append(out, "(Some "+vh.CoqZ(an.Elem().Index(i).Int())+")")
+			}
+		}
+		return out
+	}
+	jsVal := func(x interface{}) string {
+		switch t := x.(type) {
+		case nil:
+			return "None"
+		case int64:
+			return "(Some " + vh.CoqZ(t) + ")"
+		}
+		return "(Some (-88888)%Z)"
+	}
+	dumps := []string{
+		`Array.from(a)`, `[...a]`, `JSON.parse(JSON.stringify(a))`,
+		`(function(){ var r = []; for (var i = 0; i < a.length; i++) r.push(a[i]); return r; })()`,
+		`(function(){ var r = []; for (var k in a) r.push(a[k]); return r; })()`,
+		`a.map(function(x){ return x; })`, `a.slice()`,
+	}
+	var ops, obs, human []string
+	tags := map[string]bool{"gs": true, fmt.Sprintf("gs:kind=%d", c.GK): true}
+	goCut, nontrivial := false, false
+	for i, op := range c.Ops {
+		out := "GU"
+		var term string
+		strict := ""
+		if op.How == 1 {
+			strict = `"use strict"; `
+		}
+		switch op.O {
+		case "set":
+			x := run(fmt.Sprintf(`(function(){ %stry { a[%d] = %d; return "ok"; } catch (e) { return "E"; } })()`, strict, op.I, op.Z)).String()
+			if x != "ok" {
+				out = "GE"
+			}
+			term = fmt.Sprintf("GSet %d %s %s", op.I, vh.CoqZ(op.Z), vh.CoqBool(op.How == 1))
+			if goCut {
+				nontrivial = true
+			}
+		case "del":
+			run(fmt.Sprintf(`delete a[%d]`, op.I))
+			term = fmt.Sprintf("GDel %d", op.I)
+		case "len":
+			x := run(fmt.Sprintf(`(function(){ %stry { a.length = %d; return "ok"; } catch (e) { return "E"; } })()`, strict, op.N)).String()
+			if x != "ok" {
+				out = "GE"
+			}
+			term = fmt.Sprintf("GLen %d %s", op.N, vh.CoqBool(op.How == 1))
+			if goCut {
+				nontrivial = true
+			}
+		case "push":
+			x := run(fmt.Sprintf(`(function(){ try { a.push(%d); return "ok"; } catch (e) { return "E"; } })()`, op.Z)).String()
+			if x != "ok" {
+				out = "GE"
+			}
+			term = fmt.Sprintf("GPush %s", vh.CoqZ(op.Z))
+		case "pop":
+			x := run(`(function(){ try { var v = a.pop(); return v === undefined ? "U" : v; } catch (e) { return "E"; } })()`).Export()
+			switch t := x.(type) {
+			case string:
+				if t == "U" {
+					out = "(GVal None)"
+				} else {
+					out = "GE"
+				}
+			default:
+				out = "(GVal (Some " + jsVal(x) + "))"
+			}
+			term = "GPop"
+		case "sort":
+			run(`a.sort(function(x, y) { return x - y; })`)
+			term = "GSort"
+		case "gotrunc":
+			switch c.GK {
+			case 0:
+				if op.N <= len(si) {
+					si = si[:op.N]
+				}
+			case 1:
+				if op.N <= len(sn) {
+					sn = sn[:op.N]
+				}
+			}
+			term = fmt.Sprintf("GGoTrunc %d", op.N)
+			goCut = true
+			tags["gs:go-truncate"] = true
+		case "goappend":
+			switch c.GK {
+			case 0:
+				si = append(si, int(op.Z))
+			case 1:
+				sn = append(sn, int(op.Z))
+			}
+			term = fmt.Sprintf("GGoAppend %s", vh.CoqZ(op.Z))
+		case "goset":
+			switch c.GK {
+			case 0:
+				if op.I < len(si) {
+					si[op.I] = int(op.Z)
+				}
+			case 1:
+				if op.I < len(sn) {
+					sn[op.I] = int(op.Z)
+				}
+			case 2:
+				if op.I < an.Elem().Len() {
+					an.Elem().Index(op.I).SetInt(op.Z)
+				}
+			}
+			term = fmt.Sprintf("GGoSet %d %s", op.I, vh.CoqZ(op.Z))
+		case "defnoval":
+			x := run(fmt.Sprintf(`(function(){ try { Object.defineProperty(a, %d, {enumerable: true}); return "ok"; } catch (e) { return "E"; } })()`, op.I)).String()
+			if x != "ok" {
+				out = "GE"
+			}
+			term = fmt.Sprintf("GDefNoVal %d", op.I)
+		case "get":
+			x := run(fmt.Sprintf(`(function(){ var v = a[%d]; return v === undefined ? "U" : v; })()`, op.I)).Export()
+			if t, ok := x.(string); ok && t == "U" {
+				out = "(GVal None)"
+			} else {
+				out = "(GVal (Some " + jsVal(x) + "))"
+			}
+			term = fmt.Sprintf("GGet %d", op.I)
+		default:
+			continue
+		}
+		tags["gop:"+op.O] = true
+		var js []string
+		if d, ok := run(dumps[i%len(dumps)]).Export().([]interface{}); ok {
+			for _, x := range d {
+				js = append(js, jsVal(x))
+			}
+		} else {
+			js = append(js, "(Some (-99999)%Z)")
+		}
+		ops = append(ops, "("+term+")")
+		obs = append(obs, fmt.Sprintf("(mkGObs %s %s %s)", out, vh.CoqList(goDump()), vh.CoqList(js)))
+		human = append(human, op.O+"→"+out)
+	}
+	var init []string
+	for _, p := range c.GInit {
+		init = append(init, coqOZ(p))
+	}
+	var tl []string
+	for t := range tags {
+		tl = append(tl, t)
+	}
+	return vh.Record{Case: vh.MustJSON(c),
+		Coq:  fmt.Sprintf("TSlice %s %s %s %s", []string{"GKIface", "GKInt", "GKArr"}[c.GK], vh.CoqList(init), vh.CoqList(ops), vh.CoqList(obs)),
+		Obs:  strings.Join(human, " "), Tags: tl, Nontrivial: nontrivial}
+}
+
+// ---------------------------------------------------------------------------------------------
+// xto: ExportTo into a Go struct whose fields are a random mix of untyped (interface{}) and typed destinations,
+// several of them reaching the SAME script object: within one export, destinations of one Go type must
+// share the result, and the generic results (interface{}, map[string]interface{}, []interface{}) must be the
+// same Go map / slice everywhere.
+
+var xtoObjTypes = []reflect.Type{ // destinations an object {a:1,b:2,...} can be exported to
+	ifaceType, reflect.TypeOf(map[string]interface{}(nil)), reflect.TypeOf(map[string]int(nil)),
+	reflect.TypeOf(map[string]float64(nil)), reflect.TypeOf((*struct{ A, B int })(nil)),
+}
+var xtoArrTypes = []reflect.Type{ // destinations an array [1,2,...] can be exported to
+	ifaceType, reflect.TypeOf([]interface{}(nil)), reflect.TypeOf([]int(nil)), reflect.TypeOf([]float64(nil)),
+}
+
+func genXto(r *vh.Rng) Case {
+	c := Case{Kind: "xto"}
+	n := 2 + r.Intn(6)
+	for i := 0; i < n; i++ {
+		ref := r.Intn(4) // script objects 0,1 are objects, 2,3 arrays
+		c.Refs = append(c.Refs, ref)
+		if ref < 2 {
+			c.Shape = append(c.Shape, r.Pick(5, 2, 3, 1, 2))
+		} else {
+			c.Shape = append(c.Shape, r.Pick(5, 2, 3, 1))
+		}
+	}
+	return c
+}
+
+func runXto(c Case) vh.Record {
+	vm := goja.New()
+	var fs []reflect.StructField
+	var props []string
+	for i, ref := range c.Refs {
+		var t reflect.Type
+		if ref < 2 {
+			t = xtoObjTypes[c.Shape[i]%len(xtoObjTypes)]
+		} else {
+			t = xtoArrTypes[c.Shape[i]%len(xtoArrTypes)]
+		}
+		fs = append(fs, reflect.StructField{Name: fmt.Sprintf("F%d", i), Type: t})
+		props = append(props, fmt.Sprintf("F%d: O[%d]", i, ref))
+	}
+	st := reflect.StructOf(fs)
+	// O[0] also refers to O[1] and O[2] so that nested generic exports share too
+	src := `var O = [{A: 1, B: 2}, {A: 3, B: 4}, [5, 6], [7]]; ({` + strings.Join(props, ", ") + `})`
+	v, err := vm.RunString(src)
+	if err != nil {
+		panic(err)
+	}
+	var bits []bool
+	var notes []string
+	x := reflect.New(st)
+	ok, note := guardBit(func() bool { return vm.ExportTo(v, x.Interface()) == nil })
+	bits = append(bits, ok)
+	if !ok {
+		notes = append(notes, "ExportTo "+note)
+	}
+	generic := func(t reflect.Type) bool {
+		return t == ifaceType || t == reflect.TypeOf(map[string]interface{}(nil)) || t == reflect.TypeOf([]interface{}(nil))
+	}
+	ptrOf := func(f reflect.Value) (uintptr, bool) {
+		if f.Kind() == reflect.Interface {
+			if f.IsNil() {
+				return 0, false
+			}
+			f = f.Elem()
+		}
+		switch f.Kind() {
+		case reflect.Map, reflect.Ptr, reflect.Slice:
+			if f.IsNil() {
+				return 0, false
+			}
+			return f.Pointer(), true
+		}
+		return 0, false
+	}
+	shared := 0
+	if ok {
+		for i := range c.Refs {
+			for j := i + 1; j < len(c.Refs); j++ {
+				fi, fj := x.Elem().Field(i), x.Elem().Field(j)
+				sameType := fi.Type() == fj.Type() || (generic(fi.Type()) && generic(fj.Type()))
+				pi, oki := ptrOf(fi)
+				pj, okj := ptrOf(fj)
+				if !oki || !okj {
+					bits = append(bits, false)
+					notes = append(notes, fmt.Sprintf("F%d/F%d nil result", i, j))
+					continue
+				}
+				if c.Refs[i] == c.Refs[j] && sameType {
+					shared++
+					b := pi == pj
+					bits = append(bits, b)
+					if !b {
+						notes = append(notes, fmt.Sprintf("F%d and F%d (%v, %v) reach the same script object but got different Go values", i, j, fi.Type(), fj.Type()))
+					}
+				} else if c.Refs[i] != c.Refs[j] {
+					b := pi != pj
+					bits = append(bits, b)
+					if !b {
+						notes = append(notes, fmt.Sprintf("F%d and F%d reach different script objects but share a Go value", i, j))
+					}
+				}
+			}
+		}
+	}
+	return vh.Record{Case: vh.MustJSON(c), Coq: coqBits(bits), Obs: fmt.Sprintf("xto %v bits=%v %s", st, bits, strings.Join(notes, "; ")),
+		Tags: []string{"xto", fmt.Sprintf("xto:shared-pairs=%d", min(shared, 5))}, Nontrivial: shared > 0}
 }
 
 // ---------------------------------------------------------------------------------------------
@@ -1316,12 +1873,12 @@ type probeEnv struct {
 }
 
 var probes = map[string]func(p *probeEnv) bool{
-	// host panics
+	// former host panics (C13-F21..F24, F26 repaired): documented behaviour
 	"nilmap_set": func(p *probeEnv) bool {
 		var nm map[string]int
 		p.vm.Set("nm", nm)
-		p.vm.RunString(`nm.x = 1`)
-		return true
+		v, err := p.vm.RunString(`nm.x = 1; var r = nm.x === undefined; try { (function(){ "use strict"; nm.y = 2; })(); r = false; } catch (e) { r = r && e instanceof TypeError; } r`)
+		return err == nil && v.ToBoolean()
 	},
 	"nilmap_read": func(p *probeEnv) bool {
 		var nm map[string]int
@@ -1330,47 +1887,52 @@ var probes = map[string]func(p *probeEnv) bool{
 		return err == nil && v.ToBoolean()
 	},
 	"defprop_novalue_mapsimple": func(p *probeEnv) bool {
-		p.vm.Set("m", map[string]interface{}{"a": 1})
-		p.vm.RunString(`Object.defineProperty(m, 'x', {enumerable: true})`)
-		return true
+		m := map[string]interface{}{"a": 1}
+		p.vm.Set("m", m)
+		v, err := p.vm.RunString(`Object.defineProperty(m, 'x', {enumerable: true}); Object.defineProperty(m, 'a', {enumerable: true}); 'x' in m && m.a === 1`)
+		_, has := m["x"]
+		return err == nil && v.ToBoolean() && has && m["x"] == nil
 	},
 	"defprop_novalue_mapreflect": func(p *probeEnv) bool {
-		p.vm.Set("m", map[string]int{"a": 1})
-		p.vm.RunString(`Object.defineProperty(m, 'x', {enumerable: true})`)
-		return true
+		m := map[string]int{"a": 1}
+		p.vm.Set("m", m)
+		v, err := p.vm.RunString(`Object.defineProperty(m, 'x', {enumerable: true}); Object.defineProperty(m, 'a', {enumerable: true}); m.x === 0 && m.a === 1`)
+		return err == nil && v.ToBoolean() && len(m) == 2
 	},
 	"defprop_novalue_struct": func(p *probeEnv) bool {
-		p.vm.Set("s", &Inner{X: 1})
-		p.vm.RunString(`Object.defineProperty(s, 'X', {enumerable: true})`)
-		return true
+		st := &Inner{X: 1}
+		p.vm.Set("s", st)
+		v, err := p.vm.RunString(`Object.defineProperty(s, 'X', {enumerable: true}); s.X === 1`)
+		return err == nil && v.ToBoolean() && st.X == 1
 	},
 	"nil_embedded_ptr_get": func(p *probeEnv) bool {
-		p.vm.Set("e", &EmbPtr{B: 2})
-		p.vm.RunString(`e.X`)
-		return true
+		e := &EmbPtr{B: 2}
+		p.vm.Set("e", e)
+		v, err := p.vm.RunString(`var r = e.X === undefined && e.B === 2; try { (function(){ "use strict"; e.X = 1; })(); r = false; } catch (x) { r = r && x instanceof TypeError; } r`)
+		return err == nil && v.ToBoolean() && e.Inner == nil
 	},
 	"nil_embedded_ptr_json": func(p *probeEnv) bool {
 		p.vm.Set("e", &EmbPtr{B: 2})
-		p.vm.RunString(`JSON.stringify(e)`)
-		return true
+		v, err := p.vm.RunString(`JSON.parse(JSON.stringify(e)).B`)
+		return err == nil && v.ToInteger() == 2
 	},
 	"array_push": func(p *probeEnv) bool {
 		a := [3]int{1, 2, 3}
 		p.vm.Set("a", &a)
-		p.vm.RunString(`a.push(4)`)
-		return true
+		v, err := p.vm.RunString(`var r; try { a.push(4); r = false; } catch (e) { r = e instanceof TypeError; } r && a.length === 3`)
+		return err == nil && v.ToBoolean() && a == [3]int{1, 2, 3}
 	},
 	"array_set_oob": func(p *probeEnv) bool {
 		a := [3]int{1, 2, 3}
 		p.vm.Set("a", &a)
-		p.vm.RunString(`a[5] = 1`)
-		return true
+		v, err := p.vm.RunString(`a[5] = 1; var r = a.length === 3 && a[5] === undefined; try { (function(){ "use strict"; a[5] = 1; })(); r = false; } catch (e) { r = r && e instanceof TypeError; } r`)
+		return err == nil && v.ToBoolean() && a == [3]int{1, 2, 3}
 	},
 	"nil_func_call": func(p *probeEnv) bool {
 		var f func(int) int
 		p.vm.Set("f", f)
-		p.vm.RunString(`f(1)`)
-		return true
+		v, err := p.vm.RunString(`var r; try { f(1); r = false; } catch (e) { r = e instanceof TypeError; } r`)
+		return err == nil && v.ToBoolean()
 	},
 	"ptr_to_func_export": func(p *probeEnv) bool {
 		f := func() int { return 1 }
@@ -1442,6 +2004,10 @@ func runCase(c Case) vh.Record {
 		return runMap(c)
 	case "probe":
 		return runProbe(c)
+	case "xto":
+		return runXto(c)
+	case "gs":
+		return runGS(c)
 	}
 	panic(errors.New("unknown case kind " + c.Kind))
 }
@@ -1452,24 +2018,30 @@ func main() {
 	defer w.Close()
 	switch m.Cmd {
 	case "gen":
-		// vh.NewRng(seed) and vh.NewRng(seed+1) give the same splitmix64 stream shifted by one draw (the driver
-		// starts the generator processes with consecutive seeds): scramble the seed so that the streams are unrelated
-		sd := m.Seed
-		sd = (sd ^ (sd >> 30)) * 0xBF58476D1CE4E5B9
-		sd = (sd ^ (sd >> 27)) * 0x94D049BB133111EB
-		sd ^= sd >> 31
-		r := vh.NewRng(sd)
+		r := vh.NewRng(m.Seed)
 		for i := 0; i < m.N; i++ {
 			var c Case
-			switch r.Pick(45, 10, 35, 10) {
+			kind := r.Pick(34, 8, 7, 30, 9, 12)
+			if o, ok := m.Args["only"]; ok {
+				for i, k := range []string{"rt", "graph", "xto", "hist", "map", "gs"} {
+					if k == o {
+						kind = i
+					}
+				}
+			}
+			switch kind {
 			case 0:
 				c = Case{Kind: "rt", Seed: r.U64() >> 1, Mapper: r.Intn(3)}
 			case 1:
 				c = genGraph(r)
 			case 2:
-				c = genHist(r)
+				c = genXto(r)
 			case 3:
+				c = genHist(r)
+			case 4:
 				c = genMap(r)
+			case 5:
+				c = genGS(r)
 			}
 			cc := c
 			vh.Guard(w, vh.MustJSON(cc), failTerm, 30, func() vh.Record { return runCase(cc) })
